@@ -1007,6 +1007,13 @@ func (fc *FnCtx) doReturn(x *ssa.Return) {
 		if fc.skipEnsures(fc.c, i) {
 			continue
 		}
+		if auditAntecedents {
+			if ante, ok := env.antecedentOf(e); ok {
+				st := fc.cur.derive()
+				st.assume(ante)
+				fc.cover(fmt.Sprintf("ante!post!e%d!ret%d!%s", i+1, fc.retCount, truncate(fc.c.EnsuresSrc[i], 60)), st, x.Pos())
+			}
+		}
 		goal := env.evalBool(e)
 		fc.obligeAt(fc.cur, "post", fmt.Sprintf("e%d!ret%d", i+1, fc.retCount), goal, x.Pos(), "postcondition: "+fc.c.EnsuresSrc[i])
 	}
